@@ -413,7 +413,9 @@ func (n *Native) expectOK(line string) error {
 }
 
 // Put / Get / Del / Clear / Dump: raw map access inside the runner.
-func (n *Native) Put(m string, k, v []byte) error { return n.expectOK("put " + m + " " + hx(k) + " " + hx(v)) }
+func (n *Native) Put(m string, k, v []byte) error {
+	return n.expectOK("put " + m + " " + hx(k) + " " + hx(v))
+}
 func (n *Native) Del(m string, k []byte) error {
 	_, err := n.Cmd("del " + m + " " + hx(k))
 	return err
@@ -487,7 +489,7 @@ func (o *RunOpts) str() string {
 
 // Result of one native run.
 type Result struct {
-	Fault      bool   // the program touched memory outside the frame (guard page hit)
+	Fault      bool // the program touched memory outside the frame (guard page hit)
 	FaultInfo  string
 	Verdict    int32
 	Data       []byte // frame after the run
